@@ -19,6 +19,9 @@ V = VerDT
 INTL = ListS(INT, is_tuple=True)
 
 
+_SEGMENT_NUMBER = {a: z3.Function("ver_" + a + "_segment", VerDT, z3.IntSort()) for a in ("pre", "post", "dev")}
+
+
 def ver_wf(t):
     i = z3.Int(fresh_name("vi"))
     return z3.And(V.epoch(t) >= 0, V.n(t) >= 1, z3.ForAll([i], z3.Implies(z3.And(0 <= i, i < V.n(t)), z3.Select(V.rel(t), i) >= 0)),
@@ -161,9 +164,9 @@ class VerTheory:
             # packaging: `pre` is None or an ("a"|"b"|"rc", N) pair, `post` / `dev` are None or the segment's number (N >= 0).  The flag says
             # whether the segment is there; its number is an unconstrained non-negative integer (T-VER orders versions by `ord`, not by it)
             flag = {"pre": V.pre, "post": V.post, "dev": V.dev}[attr](t)
+            num = _SEGMENT_NUMBER[attr](t)        # a function of the version, so that two reads of one version agree
             if attr == "pre":
-                return Opt(flag, z3.Int(fresh_name("prepair")), "pair")
-            num = z3.Int(fresh_name(attr + "num"))
+                return Opt(flag, num, "pair")
             ex.assume(num >= 0)
             return Opt(flag, num, "int")
         raise OutsideSubset(f"Version.{attr}")
